@@ -170,6 +170,21 @@ func (la *lockAnalysis) returnAfterHandOff(fn *ssa.Function, ret *ssa.Return, cl
 			goBlocks[la.site[child].Block()] = true
 		}
 	}
+	// a goroutine started on a named function or method of the repository that releases the lock
+	// (the closure of the pinned tree written as a method: `go b.sendAllKeys(...)`)
+	eachInstr(fn, func(in ssa.Instruction) {
+		g, ok := in.(*ssa.Go)
+		if !ok {
+			return
+		}
+		t := g.Call.StaticCallee()
+		if t == nil || t.Blocks == nil || t.Parent() != nil || t.Pkg == nil || !isRepoPkg(t.Pkg.Pkg.Path()) {
+			return
+		}
+		if la.handedOff(fn, in, t, cl) {
+			goBlocks[in.Block()] = true
+		}
+	})
 	if len(goBlocks) == 0 {
 		return false
 	}
